@@ -376,6 +376,12 @@ impl Exec {
                         let transient = op["transient"].as_bool().unwrap_or(true);
                         node.faults.block_fail.insert(h, (times, transient));
                     }
+                    "http503" => {
+                        let base = node.rpc_calls;
+                        for i in op["at"].as_array().unwrap() {
+                            node.faults.rpc_http503_at.insert(base + i.as_u64().unwrap() as usize);
+                        }
+                    }
                     "rpc_after" => {
                         // the transaction RPC interface answers n more calls and then goes away (until rpc_up is set again)
                         node.faults.rpc_down_after = Some(op["n"].as_u64().unwrap() as usize);
